@@ -279,6 +279,28 @@ def check_coverage(rng, tier, report):
         except Exception as e:
             r.kill(); f.stop(); report("coverage/" + name, False, {"exception": repr(e)})
 
+def check_edges(rng, tier, report):
+    """mouse events on the borders of the terminal - top row, tab bar rows, bottom row, first and last column, one past the edge - on every tab:
+    presses, drags that start inside and end on a border, releases, scrolls; one event per loop iteration"""
+    for size in ([(24, 80)] if tier == "quick" else [(24, 80), (40, 140), (10, 30)]):
+        rows, cols = size
+        r, f = start(["--touchscreen"] if size == (40, 140) else [], rows, cols, [("sleep", 600)])
+        try:
+            r.pump(1.0)
+            sent = 0
+            for tabkey in (KEYS["F1"], KEYS["F2"], KEYS["F3"], KEYS["F4"], KEYS["F5"]):
+                r.send(tabkey); r.pump(0.2)
+                pts = [(0, 0), (0, cols // 2), (0, cols - 1), (1, 5), (2, 5), (3, 5), (4, 5), (rows - 1, 0), (rows - 1, cols - 1), (rows // 2, 0), (rows // 2, cols - 1), (rows, cols)]
+                for (row, col) in pts:
+                    if r.poll() is not None: break
+                    # press in the middle, drag to the border point, release there; then a press and a scroll on the border point itself
+                    for data in (mouse_bytes(0, cols // 2, rows // 2), mouse_bytes(32, col, row), mouse_bytes(0, col, row, release=True),
+                                 mouse_bytes(0, col, row), mouse_bytes(0, col, row, release=True), mouse_bytes(64, col, row), mouse_bytes(65, col, row)):
+                        r.send(data); r.pump(0.05); sent += 1
+            finish(r, f, b"q", "edges/%dx%d" % size, report, {"size": size, "events": sent})
+        except Exception as e:
+            r.kill(); f.stop(); report("edges/%dx%d" % size, False, {"exception": repr(e)})
+
 def check_waiting(rng, tier, report):
     """quit while radar is still waiting for its TCP connection (nothing listens)"""
     import socket
